@@ -10,9 +10,16 @@ Binding:
   T  every transform the driver runs on the real code (TLC's pictures, all 7x7 filter pairs x depth pairs x sizes
      x value classes incl. magnitudes up to 2^62) is recorded and judged by TLC with WaveletTrace.tla: decoded
      picture = input picture, band set and shapes = the code's subband_width/height.
+  State level (spec/WaveletPicture.tla + WaveletOps!ForwardWaveletTransform ...): whole pictures of three components
+     with INDEPENDENT luma / colour-difference sizes under one set of transform parameters, run through the real
+     forward_wavelet_transform + inverse_wavelet_transform (any integers) and picture_encode + picture_decode
+     (in-range samples) with luma_width/height, color_diff_width/height in the state.  G: TLC enumerates the
+     configurations of a box (dump = the design's coefficients of all three components); T: those plus a grid over
+     all 49 filter pairs are recorded as "picture" events and every component is judged by the same clauses.
 Python only builds states/pictures, calls the functions, copies arrays and compares two arrays for equality.
 """
 import copy
+import json
 import os
 import random
 import resource
@@ -59,6 +66,21 @@ def write_generated(d):
 
 def tla_set(items):
     return "{" + ", ".join(items) + "}"
+
+
+def write_picture_model(d, pairs, depths, luma, chroma, bits, patterns):
+    """WaveletPictureBox.tla (state-level layer, constants of the box as definitions) + cfg text."""
+    files = write_generated(d)
+    tup = lambda xs: tla_set("<<%d, %d>>" % p for p in xs)
+    box = "---- MODULE WaveletPictureBox ----\nEXTENDS WaveletPicture, WaveletTables\nBoxPairs == %s\nBoxDepths == %s\nBoxLuma == %s\nBoxChroma == %s\nBoxBits == %s\nBoxPatterns == %s\n====\n" % (
+        tup(pairs), tup(depths), tup(luma), tup(chroma), tup(bits), tla_set(str(k) for k in patterns))
+    p = os.path.join(d, "WaveletPictureBox.tla")
+    with open(p, "w") as f:
+        f.write(box)
+    files.append(p)
+    cfg = "SPECIFICATION Spec\nCONSTANTS\n  Filters <- TableFilters\n  FilterPairs <- BoxPairs\n  Depths <- BoxDepths\n  LumaSizes <- BoxLuma\n  ChromaSizes <- BoxChroma\n  BitDepths <- BoxBits\n  Patterns <- BoxPatterns\n"
+    cfg += "INVARIANT PictureWellFormed\nINVARIANT PerfectReconstructionAll\nINVARIANT ShapesMatchSliceGeometryAll\nINVARIANT BoxCoversPaddingClasses\nCHECK_DEADLOCK FALSE\n"
+    return "WaveletPictureBox", cfg, files
 
 
 def write_model(d, pairs, depths, sizes, vals, view):
@@ -157,6 +179,149 @@ def _transform(case, pe, pd, ss, st, comp, pic, work):
 
 def _transform_job(case):
     return transform(case)
+
+
+# ----------------------------------------------------------------------------- state level: whole pictures
+COMPS = ("Y", "C1", "C2")
+KEYS = {"Y": "y_transform", "C1": "c1_transform", "C2": "c2_transform"}
+
+
+def transform_picture(case, mods=None):
+    """One whole picture through the real state-level entry points; returns a "picture" trace event.
+    mode "fwt": forward_wavelet_transform + inverse_wavelet_transform; mode "codec": picture_encode + picture_decode."""
+    if mods is None:
+        from vc2_conformance.pseudocode import picture_encoding as pe, picture_decoding as pd, slice_sizes as ss
+    else:
+        pe, pd, ss = mods
+    ev = {"tid": case["tid"], "ev": "picture", "mode": case["mode"], "f": case["f"], "fho": case["fho"], "d": case["d"], "dho": case["dho"],
+          "lw": case["lw"], "lh": case["lh"], "cw": case["cw"], "ch": case["ch"], "exc": "none", "comps": [], "_coeffs": {}}
+    try:
+        _transform_picture(case, pe, pd, ss, ev)
+    except Exception as e:  # no picture at all: clause NoResult
+        ev["exc"] = common.exc_signature(e)
+        ev["comps"] = []
+    return ev
+
+
+def _state(case):
+    from vc2_conformance.pseudocode.state import State
+
+    return State(wavelet_index=case["f"], wavelet_index_ho=case["fho"], dwt_depth=case["d"], dwt_depth_ho=case["dho"],
+                 luma_width=case["lw"], luma_height=case["lh"], color_diff_width=case["cw"], color_diff_height=case["ch"],
+                 luma_depth=case["ydepth"], color_diff_depth=case["cdepth"])
+
+
+def _transform_picture(case, pe, pd, ss, ev):
+    pic = case["pic"]
+    est = _state(case)
+    work = copy.deepcopy(pic)
+    if case["mode"] == "fwt":
+        pe.forward_wavelet_transform(est, work)
+    else:
+        pe.picture_encode(est, work)
+    # the decoder has its own state: same parameters, the coefficients as the only thing handed over
+    dst = _state(case)
+    for c in COMPS:
+        dst[KEYS[c]] = copy.deepcopy(est[KEYS[c]])
+    if case["mode"] == "fwt":
+        dst["current_picture"] = {}
+        pd.inverse_wavelet_transform(dst)
+    else:
+        dst["picture_number"] = 0
+        pd.picture_decode(dst)
+    levels = range(case["d"] + case["dho"] + 1)
+    for c in COMPS:
+        w, h = (case["lw"], case["lh"]) if c == "Y" else (case["cw"], case["ch"])
+        co = est[KEYS[c]]
+        shapes, coeffs = [], []
+        for n in sorted(co):
+            for b in sorted(co[n], key=BAND_ORDER.index):
+                a = co[n][b]
+                shapes.append({"n": n, "b": b, "w": len(a[0]) if len(a) else 0, "h": len(a)})
+                coeffs.append({"n": n, "b": b, "a": [list(r) for r in a]})
+        rec = [list(r) for r in dst["current_picture"][c]]
+        equal = rec == pic[c]
+        geom = [{"n": n, "sw": ss.subband_width(est, n, c), "sh": ss.subband_height(est, n, c)} for n in levels]
+        small = all(abs(v) < SMALL for r in pic[c] for v in r) and all(abs(v) < SMALL for r in rec for v in r)
+        k = {"c": c, "tid": case["tid"], "ev": "dwt", "f": case["f"], "fho": case["fho"], "d": case["d"], "dho": case["dho"], "w": w, "h": h,
+             "depth": (case["ydepth"] if c == "Y" else case["cdepth"]) if case["mode"] == "codec" else 0,
+             "arrays": bool(small), "equal": bool(equal), "shapes": shapes, "geom": geom, "cmp": False, "exc": "none"}
+        if small:
+            k["pic"] = pic[c]
+            k["rec"] = rec
+        if not equal:
+            k["first_diff"] = next(([y, x] for y in range(min(len(pic[c]), len(rec))) for x in range(min(len(pic[c][y]), len(rec[y]))) if pic[c][y][x] != rec[y][x]), [-1, -1])
+        ev["comps"].append(k)
+        ev["_coeffs"][c] = coeffs
+
+
+def _picture_job(case):
+    return transform_picture(case)
+
+
+def chroma_of(rnd, lw, lh):
+    """colour-difference size for a luma size: the three sampling formats (also for odd luma sizes) or independent"""
+    kind = rnd.choice(("444", "422", "420", "free", "free"))
+    if kind == "444":
+        return lw, lh
+    if kind == "422":
+        return max(1, lw // 2), lh
+    if kind == "420":
+        return max(1, lw // 2), max(1, lh // 2)
+    return rnd.randint(1, 9), rnd.randint(1, 9)
+
+
+def picture_grid(ctx, rnd):
+    """state-level cases on the real code: all 49 filter pairs x depth pairs x luma sizes x colour-difference sizes"""
+    cases = []
+    dps = [p for p in depth_pairs(ctx.pick(3, 5)) if p != (0, 0)] + [(0, 0)]
+    for f in range(7):
+        for g in range(7):
+            for (d, dho) in dps:
+                for _ in range(ctx.pick(1, 6)):
+                    lw, lh = rnd.choice([(rnd.randint(1, 12), rnd.randint(1, 9)), (rnd.choice((9, 11, 17)), rnd.choice((4, 5, 8))), (8, 8), (16, 4)])
+                    cw, ch = chroma_of(rnd, lw, lh)
+                    mode = rnd.choice(("fwt", "fwt", "codec"))
+                    yd, cd = rnd.choice(((8, 8), (10, 10), (1, 3), (12, 8), (16, 16)))
+                    cls = "range" if mode == "codec" else rnd.choice(("pm1", "small", "small", "near2p30", "huge"))
+                    pic = {}
+                    for c, (w, h, dep) in (("Y", (lw, lh, yd)), ("C1", (cw, ch, cd)), ("C2", (cw, ch, cd))):
+                        pic[c] = [[rnd.randint(0, (1 << dep) - 1) for _ in range(w)] for _ in range(h)] if mode == "codec" else make_picture(rnd, w, h, cls)
+                    cases.append({"mode": mode, "f": f, "fho": g, "d": d, "dho": dho, "lw": lw, "lh": lh, "cw": cw, "ch": ch, "ydepth": yd, "cdepth": cd, "cls": cls, "pic": pic, "origin": "grid"})
+    return cases
+
+
+def picture_representatives(ctx, box):
+    """G direction of the state-level layer: TLC explores WaveletPicture over the box (invariants = the property for all
+    three components) and dumps every configuration with the design's coefficients."""
+    d = tlc.mkscratch("wpic")
+    root, cfg, files = write_picture_model(d, **box)
+    res = tlc.run(root, cfg, dump=True, workers=WORKERS, extra_files=files, coverage=False, env=XSS)
+    ctx.add_tlc(res, "state level: three components with independent sizes (WaveletPicture, -dump)", {k: len(v) for k, v in box.items()})
+    reps = []
+    for st in tlaval.iter_dump(res.dump_path):
+        if st["stage"] == "decoded":
+            co = {}
+            for c, lv in st["co"].items():
+                for n, bands in lv.items():
+                    for b, a in bands.items():
+                        co[(str(c), int(n), str(b))] = to_lists(a)
+            sz, dp = st["sz"], st["dp"]
+            reps.append({"mode": str(st["mode"]), "f": st["f"], "fho": st["fho"], "d": st["d"], "dho": st["dho"], "lw": sz["lw"], "lh": sz["lh"], "cw": sz["cw"], "ch": sz["ch"],
+                         "ydepth": dp["y"], "cdepth": dp["c"], "pic": {str(c): to_lists(a) for c, a in st["pic"].items()}, "spec_co": co, "cls": "tlc", "origin": "tlc"})
+    return reps
+
+
+def compare_picture_coeffs(rep, ev):
+    n_bad = 0
+    for c in COMPS:
+        for k in ev["_coeffs"].get(c, []):
+            if rep["spec_co"].get((c, k["n"], "DC" if k["n"] == 0 else k["b"])) != k["a"]:
+                n_bad += 1
+    return n_bad
+
+
+PICTURE_KEYS = ("mode", "f", "fho", "d", "dho", "lw", "lh", "cw", "ch", "ydepth", "cdepth", "pic")
 
 
 # ----------------------------------------------------------------------------- inputs
@@ -281,6 +446,63 @@ def selftest(sample_case):
     return {"mutants": "oned_analysis with stages not reversed (monkeypatch); subband_height doubled at horizontal-only levels (monkeypatch)", "corrupted_fields": "one decoded sample +1; one recorded band shape dropped", "flagged": got, "untouched_record_accepted": True}
 
 
+def picture_selftest(sample_case):
+    """State level: (1) a forward_wavelet_transform that pads the luma component only, (2) an
+    inverse_wavelet_transform that removes the padding of every component with the LUMA size must be flagged;
+    (3) corrupted recorded fields of one component; the untouched record must be accepted."""
+    from vc2_conformance.pseudocode import picture_encoding as pe, picture_decoding as pd, slice_sizes as ss
+
+    base = {"mode": "fwt", "f": 1, "fho": 3, "d": 1, "dho": 1, "lw": 8, "lh": 4, "cw": 3, "ch": 3, "ydepth": 8, "cdepth": 8,
+            "pic": {"Y": [[(3 * x + 5 * y) % 11 - 5 for x in range(8)] for y in range(4)], "C1": [[x - y for x in range(3)] for y in range(3)], "C2": [[x * y - 2 for x in range(3)] for y in range(3)]}}
+    recs, want = [], []
+    orig = pe.forward_wavelet_transform
+    try:
+        def luma_only(state, current_picture):
+            pe.dwt_pad_addition(state, current_picture["Y"], "Y")
+            state["y_transform"] = pe.dwt(state, current_picture["Y"])
+            state["c1_transform"] = pe.dwt(state, current_picture["C1"])
+            state["c2_transform"] = pe.dwt(state, current_picture["C2"])
+
+        pe.forward_wavelet_transform = luma_only
+        recs.append(transform_picture(dict(base, tid=1), (pe, pd, ss)))
+        want.append(1)
+    finally:
+        pe.forward_wavelet_transform = orig
+    orig = pd.inverse_wavelet_transform
+    try:
+        def luma_sized(state):
+            for c in COMPS:
+                state["current_picture"][c] = pd.idwt(state, state[KEYS[c]])
+                pd.idwt_pad_removal(state, state["current_picture"][c], "Y")
+
+        pd.inverse_wavelet_transform = luma_sized
+        recs.append(transform_picture(dict(base, tid=2, lw=3, lh=3, cw=2, ch=2, pic={"Y": base["pic"]["C1"], "C1": [[1, -2], [3, 4]], "C2": [[0, 5], [-6, 7]]}), (pe, pd, ss)))
+        want.append(2)
+    finally:
+        pd.inverse_wavelet_transform = orig
+    good = transform_picture(dict(sample_case, tid=3))
+    recs.append(good)
+    e = copy.deepcopy(good)
+    e["tid"] = 4
+    k = e["comps"][2]
+    k["shapes"] = k["shapes"][:-1] if len(k["shapes"]) > 1 else [dict(k["shapes"][0], w=k["shapes"][0]["w"] + 1)]
+    recs.append(e)
+    want.append(4)
+    e = copy.deepcopy(good)
+    e["tid"] = 5
+    e["comps"][1]["equal"] = False
+    if e["comps"][1]["arrays"]:
+        e["comps"][1]["rec"][-1][-1] += 1
+    recs.append(e)
+    want.append(5)
+    bad, _ = validate([{k: v for k, v in r.items() if not k.startswith("_")} for r in recs])
+    got = sorted(b["tid"] for b in bad if b["alarm"])
+    if got != want:
+        raise RuntimeError("C11 state-level binding self-test failed: expected alarms on %s, trace spec reported %s" % (want, [(b["tid"], b["clause"], b.get("comp")) for b in bad]))
+    return {"mutants": "forward_wavelet_transform padding the luma component only (monkeypatch); inverse_wavelet_transform removing padding with the luma size for every component (monkeypatch)",
+            "corrupted_fields": "one band shape of C2 dropped; one decoded sample of C1 altered", "flagged": [(b["tid"], b["clause"], b.get("comp")) for b in bad if b["alarm"]], "untouched_record_accepted": True}
+
+
 def _cpu():
     a = resource.getrusage(resource.RUSAGE_SELF)
     b = resource.getrusage(resource.RUSAGE_CHILDREN)
@@ -320,11 +542,43 @@ def run(ctx):
     dis = 0
     for rep, ev in zip(reps, evs[: len(reps)]):
         dis += compare_coeffs(rep, ev)
-    records = [{k: v for k, v in ev.items() if not k.startswith("_")} for ev in evs]
+    # ---- state level: whole pictures (three components, independent sizes, one set of transform parameters)
+    pbox = ctx.pick(
+        dict(pairs=[(1, 3), (4, 2)], depths=[(1, 0), (0, 1), (1, 1), (2, 0)], luma=[(4, 4), (3, 2), (4, 3), (5, 2)], chroma=[(4, 4), (2, 2), (2, 1), (1, 1)], bits=[(3, 2)], patterns=[1]),
+        dict(pairs=diag, depths=[(1, 0), (0, 1), (1, 1), (2, 0), (0, 2)], luma=[(4, 4), (3, 2), (5, 4), (4, 3), (9, 4)], chroma=[(4, 4), (2, 2), (2, 1), (1, 1), (4, 2)], bits=[(8, 10)], patterns=[1]),
+    )
+    preps = picture_representatives(ctx, pbox)
+    if not preps:
+        raise RuntimeError("TLC produced no state-level pictures")
+    pcases = [dict(r) for r in preps] + picture_grid(ctx, rnd)
+    for k, c in enumerate(pcases):
+        c["tid"] = len(cases) + k + 1
+    pevs = common.pmap(_picture_job, pcases)
+    for rep, ev in zip(preps, pevs[: len(preps)]):
+        dis += compare_picture_coeffs(rep, ev)
+    records = [{k: v for k, v in ev.items() if not k.startswith("_")} for ev in evs + pevs]
     bad, tres = validate(records)
     ctx.add_tlc(tres, "trace validation (WaveletTrace)")
+    padclass = tlc.printed(tres, "PADCLASS")
+    padclass = json.loads(padclass[-1][0]) if padclass else {}
     tdis = {}
     for b in bad:
+        if b["tid"] > len(cases):
+            c = pcases[b["tid"] - len(cases) - 1]
+            if b["alarm"]:
+                ev = records[b["tid"] - 1]
+                entry = "inverse_wavelet_transform(forward_wavelet_transform(picture))" if c["mode"] == "fwt" else "picture_decode(picture_encode(picture))"
+                comp = next((k for k in ev["comps"] if k["c"] == b.get("comp")), None)
+                ctx.violation(
+                    "C11|%s|%s" % (b["clause"], entry if b["clause"] == "PerfectReconstruction" else (ev["exc"] if b["clause"] == "NoResult" else "forward_wavelet_transform shapes" if b["clause"] == "ShapesMatchSliceGeometry" else "picture event")),
+                    "wavelet_index=%d wavelet_index_ho=%d dwt_depth=%d dwt_depth_ho=%d luma %dx%d colour difference %dx%d (%s, %s values), component %s: %s"
+                    % (c["f"], c["fho"], c["d"], c["dho"], c["lw"], c["lh"], c["cw"], c["ch"], c["mode"], c["cls"], b.get("comp"),
+                       ("decoded component differs first at [y, x] = %s" % (comp or {}).get("first_diff")) if b["clause"] == "PerfectReconstruction" else ("the transform raised %s" % ev["exc"]) if b["clause"] == "NoResult" else ("band shapes %s vs slice geometry %s" % ((comp or {}).get("shapes"), (comp or {}).get("geom")))),
+                    {"picture": {k: c[k] for k in PICTURE_KEYS}},
+                )
+            else:
+                tdis[b["clause"]] = tdis.get(b["clause"], 0) + 1
+            continue
         c = cases[b["tid"] - 1]
         if b["alarm"]:
             ev = records[b["tid"] - 1]
@@ -336,6 +590,9 @@ def run(ctx):
         else:
             tdis[b["clause"]] = tdis.get(b["clause"], 0) + 1
     st = selftest(cases[len(reps)]) if not ctx.violations else {"skipped": "violations were found by the main run"}
+    pst = picture_selftest(pcases[len(preps)]) if not ctx.violations else {"skipped": "violations were found by the main run"}
+    if min(padclass.get(k, 0) for k in ("both", "luma_only", "chroma_only", "neither")) < 10:
+        raise RuntimeError("vacuous state-level run: padding classes %s" % padclass)
     nontrivial = set()
     for c in cases:
         if c["d"] + c["dho"] > 0 and c["cls"] not in ("zero",):
@@ -346,9 +603,9 @@ def run(ctx):
     ctx.coverage.update(
         {
             "traces_validated_against_impl": len(records),
-            "evaluations": len(records),
+            "evaluations": len(evs) + sum(len(ev["comps"]) for ev in pevs),
             "distinct_nontrivial": len(nontrivial),
-            "rule": "one evaluation = one component padded, analysed, synthesised and unpadded by the real code and judged by TLC; non-trivial = distinct (filters, depths, size, value class, first samples) with at least one transform level and non-zero samples",
+            "rule": "one evaluation = one component padded, analysed, synthesised and unpadded by the real code and judged by TLC (a state-level picture = three evaluations in one trace line); non-trivial = distinct (filters, depths, size, value class, first samples) with at least one transform level and non-zero samples",
             "exhaustive": True,
             "exhaustive_box": {k: (v if k == "vals" else len(v)) for k, v in box.items()},
             "tlc_representatives": len(reps),
@@ -361,6 +618,16 @@ def run(ctx):
             "spec_disagreements": dis + sum(tdis.values()),
             "logged_clauses": tdis,
             "binding_selftest": st,
+            "state_level": {
+                "pictures_validated": len(pcases),
+                "tlc_configurations": len(preps),
+                "grid_pictures": len(pcases) - len(preps),
+                "box": {k: len(v) for k, v in pbox.items()},
+                "modes": {m: sum(1 for c in pcases if c["mode"] == m) for m in ("fwt", "codec")},
+                "padding_classes_by_the_design_geometry": padclass,
+                "filter_pairs_covered": len(set((c["f"], c["fho"]) for c in pcases)),
+                "binding_selftest": pst,
+            },
             "cpu_s": round(_cpu() - cpu0, 1),
             "samples": [records[0], {k: v for k, v in records[len(reps) + 3].items()}, {k: cases[-1][k] for k in ("f", "fho", "d", "dho", "w", "h", "cls")}],
         }
@@ -373,6 +640,10 @@ def run(ctx):
 
 
 def replay(case):
+    if "picture" in case:
+        ev = transform_picture(dict(case["picture"], tid=1))
+        bad, _ = validate([{k: v for k, v in ev.items() if not k.startswith("_")}])
+        return {"violations": [b for b in bad if b["alarm"]], "event": {k: v for k, v in ev.items() if k not in ("comps", "_coeffs")}}
     ev = transform(dict(case, tid=1))
     bad, _ = validate([ev])
     return {"violations": [b for b in bad if b["alarm"]], "event": {k: v for k, v in ev.items() if k not in ("pic",)}}
